@@ -28,6 +28,7 @@ type Options struct {
 	Trace         bool
 	SolverLogDir  string
 	MaxSamples    int
+	MaxModels     int
 }
 
 type PathSample struct {
@@ -61,6 +62,8 @@ type Result struct {
 	Truncated   bool
 	Ends        map[string]int
 	MaxAlloc    int64
+	Expected    map[string]bool
+	Models      [][]InputVal // input models of completed paths (for the differential self-check)
 }
 
 func (r *Result) OK() bool {
@@ -74,7 +77,7 @@ type workItem struct {
 // Explore runs harness fn over all paths.
 func (w *World) Explore(fn *ssa.Function, opt Options) *Result {
 	t0 := time.Now()
-	res := &Result{Harness: fn.String(), Reached: map[string]int{}, Ends: map[string]int{}}
+	res := &Result{Harness: fn.String(), Reached: map[string]int{}, Ends: map[string]int{}, Expected: map[string]bool{}}
 	if opt.Workers <= 0 {
 		opt.Workers = 1
 	}
@@ -162,6 +165,12 @@ func (w *World) Explore(fn *ssa.Function, opt Options) *Result {
 			for l := range pr.path.Reached {
 				res.Reached[l]++
 			}
+			for _, l := range pr.path.Expected {
+				res.Expected[l] = true
+			}
+			if pr.inputs != nil && len(res.Models) < opt.MaxModels {
+				res.Models = append(res.Models, pr.inputs)
+			}
 			end := pr.end
 			key := end
 			if i := strings.Index(key, ":"); i > 0 {
@@ -193,7 +202,8 @@ func (w *World) Explore(fn *ssa.Function, opt Options) *Result {
 				}
 			}
 			for _, v := range pr.path.Violations {
-				k := v.Kind + "|" + v.Label
+				k := v.Kind + "|" + v.Label + "|" + strings.Join(v.Regions, ",")
+				v.Harness = fn.Name()
 				if !seenViol[k] || len(res.Violations) < opt.MaxViolations {
 					if !seenViol[k] {
 						seenViol[k] = true
@@ -276,7 +286,7 @@ func (w *World) runPath(fn *ssa.Function, sol *Solver, prefix []Decision, opt Op
 	if pr.end == "done" && opt.MaxSamples > 0 {
 		// a model of the completed path, for evidence samples (cheap: one query) — only for the
 		// first few paths of each worker
-		if sol.Stats.Queries < 400 {
+		if opt.MaxModels > 0 && (sol.Stats.Queries < 200 || sol.Stats.Queries%37 == 0) {
 			if in, ok := p.InputModel(); ok {
 				pr.inputs = in
 			}
@@ -288,7 +298,7 @@ func (w *World) runPath(fn *ssa.Function, sol *Solver, prefix []Decision, opt Op
 
 func (w *World) newMachine(tt *TermTab, p *Path) *Machine {
 	m := &Machine{prog: w.Prog, world: w, globals: map[*ssa.Global]*value{}, tt: tt, path: p,
-		models: map[any]any{}, fmtMemo: map[string]value{}, clock: 1_000_000_000, inited: map[*ssa.Package]bool{}}
+		models: map[any]any{}, fmtMemo: map[string]value{}, clock: 1_000_000_000, inited: map[*ssa.Package]bool{}, fpMemo: map[fpKey]*Term{}}
 	m.initSched()
 	return m
 }
